@@ -9,6 +9,7 @@ package table
 
 import (
 	"container/list"
+	"sync"
 	"time"
 
 	enc "github.com/named-data/ndnd/std/encoding"
@@ -17,6 +18,11 @@ import (
 // RibTable represents the Routing Information Base (RIB).
 type RibTable struct {
 	RibEntry
+
+	// mutex serialises all operations on the RIB tree. The RIB is modified
+	// by the management thread (route registration) and by every face's
+	// own goroutine when the face goes down (FaceTable.Remove -> CleanUpFace).
+	mutex sync.Mutex
 }
 
 // RibEntry represents an entry in the RIB table.
@@ -159,6 +165,9 @@ func (r *RibEntry) updateNexthopsEnc() {
 
 // AddRoute adds or updates a RIB entry for the specified prefix.
 func (r *RibTable) AddEncRoute(name enc.Name, route *Route) {
+	r.mutex.Lock()
+	defer r.mutex.Unlock()
+
 	name = name.Clone()
 	node := r.fillTreeToPrefixEnc(name)
 	if node.Name == nil {
@@ -180,8 +189,13 @@ func (r *RibTable) AddEncRoute(name enc.Name, route *Route) {
 	readvertiseAnnounce(name, route)
 }
 
-// GetAllEntries returns all routes in the RIB.
+// GetAllEntries returns all routes in the RIB. The returned entries are
+// copies (of the entry and of its routes), so that they can be read while
+// the RIB keeps changing.
 func (r *RibTable) GetAllEntries() []*RibEntry {
+	r.mutex.Lock()
+	defer r.mutex.Unlock()
+
 	entries := make([]*RibEntry, 0)
 	// Walk tree in-order
 	queue := list.New()
@@ -196,10 +210,25 @@ func (r *RibTable) GetAllEntries() []*RibEntry {
 
 		// If has any routes, add to list
 		if len(ribEntry.routes) > 0 {
-			entries = append(entries, ribEntry)
+			entries = append(entries, ribEntry.snapshot())
 		}
 	}
 	return entries
+}
+
+// snapshot returns a detached copy of the entry and its routes.
+func (r *RibEntry) snapshot() *RibEntry {
+	routes := make([]*Route, len(r.routes))
+	for i, route := range r.routes {
+		routeCopy := *route
+		routes[i] = &routeCopy
+	}
+	return &RibEntry{
+		component: r.component,
+		Name:      r.Name,
+		depth:     r.depth,
+		routes:    routes,
+	}
 }
 
 // GetRoutes returns all routes in the RIB entry.
@@ -209,6 +238,9 @@ func (r *RibEntry) GetRoutes() []*Route {
 
 // RemoveRoute removes the specified route from the specified prefix.
 func (r *RibTable) RemoveRouteEnc(name enc.Name, faceID uint64, origin uint64) {
+	r.mutex.Lock()
+	defer r.mutex.Unlock()
+
 	entry := r.findExactMatchEntryEnc(name)
 	if entry != nil {
 		for i, route := range entry.routes {
@@ -227,7 +259,15 @@ func (r *RibTable) RemoveRouteEnc(name enc.Name, faceID uint64, origin uint64) {
 }
 
 // CleanUpFace removes the specified face from all entries. Used for clean-up after a face is destroyed.
-func (r *RibEntry) CleanUpFace(faceId uint64) {
+func (r *RibTable) CleanUpFace(faceId uint64) {
+	r.mutex.Lock()
+	defer r.mutex.Unlock()
+
+	r.RibEntry.cleanUpFace(faceId)
+}
+
+// cleanUpFace removes the specified face from this entry and all entries below it.
+func (r *RibEntry) cleanUpFace(faceId uint64) {
 	// Remove all routes of the face (there may be one per origin) from this
 	// entry first, so that children no longer inherit them when they update
 	kept := make([]*Route, 0, len(r.routes))
@@ -243,7 +283,7 @@ func (r *RibEntry) CleanUpFace(faceId uint64) {
 
 	// Recursively clean children
 	for child := range r.children {
-		child.CleanUpFace(faceId)
+		child.cleanUpFace(faceId)
 	}
 
 	if removed {
